@@ -67,6 +67,19 @@ func (s *Stub) ResultsServed(h int64) bool {
 	return s.served[h]
 }
 
+// SetEarliest prunes the block store: heights below e are not served any more.
+func (s *Stub) SetEarliest(e int64) {
+	s.mu.Lock()
+	s.earliest = e
+	s.mu.Unlock()
+}
+
+func (s *Stub) Earliest() int64 {
+	s.mu.Lock()
+	defer s.mu.Unlock()
+	return s.earliest
+}
+
 func (s *Stub) Tip() int64 {
 	s.mu.Lock()
 	defer s.mu.Unlock()
